@@ -24,7 +24,7 @@ import shutil
 from .. import boot, canon, pool
 
 ID = 'C19'
-BUDGET = {'quick': 240, 'thorough': 2400}
+BUDGET = {'quick': 900, 'thorough': 2400}
 
 IGN5 = ['venv', '.venv', '.tox', '.mypy_cache', '__pycache__']
 NEAR = ['venv2', 'myvenv', '.toxic', 'pycache', '.venvs', 'VENV', '.mypy', 'env', 'tox']
@@ -89,6 +89,10 @@ def _render(snips):
             defs.append({'name': ident, 'line': line, 'col': col, 'top': top, 'type': typ,
                          'kind': kind, 'holder': ('H%d' % n) if kind in ('method', 'cattr') else None})
             s = s.replace('<X>', ident)
+        elif kind in ('n_import', 'n_from'):
+            # binds the name at module level, but an import is not a definition to report
+            defs.append({'name': ident, 'line': text.count('\n') + 1, 'col': s.index(ident, 4),
+                         'top': True, 'type': 'import', 'kind': kind, 'holder': None})
         text += s
     return text, defs
 
@@ -205,7 +209,7 @@ def _families(tier):
     for fi, rel in enumerate(SKEL7):
         for ki, kind in enumerate(dk):
             for x in (idents[(fi + ki) % len(idents)],) if quick else idents[:2]:
-                t = Tree('D:%s:%s@%s' % (kind, x, rel), qset='lite')
+                t = Tree('D:%s:%s@%s' % (kind, x, rel), qset='lite', orders=['asc'])
                 t.skeleton(SKEL7, idents, rich=False)
                 t.add(rel, [('assign', 'hq'), (kind, x), ('n_use', 'hq')])
                 trees.append(t.spec)
@@ -288,6 +292,27 @@ def _families(tier):
             trees.append(t.spec)
     fams.append(('G2 two gitignore files', trees))
 
+    # Z (thorough): everything at once, trees of up to 30 files
+    if not quick:
+        trees = []
+        places = ['', 'pkg', 'pkg/sub', 'ns']
+        multi = [k for k in GIT_KINDS if k[0] == 'multi'][0]
+        for g in GIT_LEVELS:
+            for rot in range(4):
+                t = Tree('Z:%s/rot%d' % (g or '.', rot), qset='full')
+                t.skeleton(SKEL7, idents, shift=rot)
+                for k, name in enumerate(IGN5 + NEAR[:4]):
+                    t.hidden(_j(places[(k + rot) % 4], name, 'hid.py'), idents, k)
+                t.raw(_j(g, '.gitignore'), '\n'.join(multi[1]) + '\n')
+                _place_targets(t, g, multi[2], idents, rot)
+                _place_targets(t, _j(g, 'k'), multi[2], idents, rot + 1)
+                other = GIT_LEVELS[(GIT_LEVELS.index(g) + 1) % 3]
+                t.raw(_j(other, '.gitignore'), '# second file\n/only_here\n')
+                t.hidden(_j(other, 'only_here', 'hid.py'), idents, rot)
+                t.hidden(_j(other, 'k', 'only_here', 'hid.py'), idents, rot)
+                trees.append(t.spec)
+        fams.append(('Z all ignore kinds at once (<=30 files)', trees))
+
     # L: file counts around the documented parse limit
     trees = []
     for n_match in ([29, 31] if quick else [1, 29, 30, 31, 40]):
@@ -299,7 +324,7 @@ def _families(tier):
 
     # S: the default (environment) sys.path instead of an empty one, native listing order
     trees = []
-    for s in fams[0][1][::4 if quick else 1]:
+    for s in fams[0][1][::5 if quick else 1]:
         s = dict(s, id='S' + s['id'], syspath='default', orders=['native'], qset='nonempty')
         trees.append(s)
     fams.append(('S default sys.path, native directory order', trees))
@@ -348,8 +373,14 @@ def _inventory(spec):
     why = {r: _ref_ignored(r, files) for r in pyfiles}
     vis, ign = [], []
     for rel in pyfiles:
-        for d in spec['defs'].get(rel, []):
-            (ign if why[rel] else vis).append(dict(d, rel=rel))
+        recs = spec['defs'].get(rel, [])
+        for d in recs:
+            if d['type'] == 'import':
+                continue
+            # attribute lookup `module.name` yields the last binding: only names bound once at
+            # module level are asked for in dotted form
+            once = sum(1 for e in recs if e['name'] == d['name'] and e['top']) == 1
+            (ign if why[rel] else vis).append(dict(d, rel=rel, once=once))
     mods = {}
     initdirs = set()
     for rel in pyfiles:
@@ -418,6 +449,8 @@ def _queries(spec, idents, vis):
         if not parts or not all(p.isidentifier() for p in parts):
             continue
         forms = []
+        if qset == 'lite' or (d['top'] and not d['once']):
+            continue
         if d['top']:
             forms.append((parts[-1:] + [d['name']], None))
             forms.append((parts + [d['name']], None))
@@ -431,7 +464,7 @@ def _queries(spec, idents, vis):
             if key in done or len(path) < 2:
                 continue
             done.add(key)
-            if qset != 'full' and len(done) > 4:
+            if len(done) > 8:
                 break
             add(path, typ, scopes=(False,), req=[[rel, d['line'], d['col'], d['name']]])
     return qs
@@ -526,7 +559,7 @@ def _check(q, res, root, vis, mods, why):
         if typ == 'module':
             got_mods.add(rel)
         w = why.get(rel) or _ref_ignored(rel, {})
-        if w:
+        if w and len(q['path']) <= 2:
             fails.append(('ignored-%s-reported%s@%s' % (w, ':module' if typ == 'module' else '', mode),
                           {'reported': [name, typ, rel, line, col], 'ignored_because': w}))
     exp = _expected(q, vis, mods)
@@ -763,56 +796,68 @@ def run(ctx):
     levels.append(('B Script.search == filter(get_names) on every distinct generated text',
                    [{'texts': tlist[i:i + chunk], 'idents': idents, 'first': i}
                     for i in range(0, len(tlist), chunk)]))
+    dev = os.environ.get('JV_C19_FAMS')          # development aid only: run a subset of families
+    if dev:
+        levels = [lv for lv in levels if lv[0].split()[0] in dev.split(',')]
+        ctx.note('JV_C19_FAMS set: only families %s are run' % dev)
     tot = {'q': 0, 'states': 0, 'req': 0, 'forb': 0}
     classes = set()
     hits = {}
     done = []
-    exhaustive = True
+    exhaustive = not dev
     max_files = 0
-    for name, tasks in levels:
-        if ctx.time_left() < 5:
-            exhaustive = False
-            ctx.note('level %s not started (time cap)' % name)
+    # One pool for all families (simplest family first within every worker's shard): the
+    # per-worker cost of loading typeshed's builtins is paid once.
+    tasks = []
+    for name, ts in levels:
+        for t in ts:
+            tasks.append(dict(t, level=name))
+    pres = pool.run(tasks, 'jv.props.c19:_work', init='jv.props.c19:_init',
+                    seed=ctx.seed, deadline=ctx.deadline, tag='c19')
+    ctx.absorb(pres, 'C19')
+    skipped = set(pres.skipped)
+    per_level = {}
+    for i, t in enumerate(tasks):
+        cnt = per_level.setdefault(t['level'], [0, 0])
+        cnt[0] += 1
+        tid = t['spec']['id'] if 'spec' in t else 'B:%d' % t['first']
+        if 'spec' in t and 'files' in t['spec']:
+            max_files = max(max_files, len(t['spec']['files']))
+        if i in pres.crashed:
+            ctx.violation('WorkerDied(exit=%s)' % pres.crashed[i], tid, {}, {'task': t})
             continue
-        pres = pool.run(tasks, 'jv.props.c19:_work', init='jv.props.c19:_init',
-                        seed=ctx.seed, deadline=ctx.deadline, tag='c19')
-        ctx.absorb(pres, name)
-        for i, t in enumerate(tasks):
-            tid = t['spec']['id'] if 'spec' in t else 'B:%d' % t['first']
-            if 'spec' in t and 'files' in t['spec']:
-                max_files = max(max_files, len(t['spec']['files']))
-            if i in pres.crashed:
-                ctx.violation('WorkerDied(exit=%s)' % pres.crashed[i], tid, {}, {'task': t})
-                continue
-            r = pres.results.get(i)
-            if r is None:
-                continue
-            for k in tot:
-                tot[k] += r[k]
-            classes.update(r['classes'])
-            for k, v in r['hits'].items():
-                hits[k] = hits.get(k, 0) + v
-            fam = tid.split(':')[0]
-            hits['trees:' + fam] = hits.get('trees:' + fam, 0) + 1
-            for f in r['fails']:
-                only = [f['order'], f['query'], f['mode'], f['all_scopes']]
-                if 'texts' in t:
-                    # a buffer is identified by its text, not by its position in the chunk
-                    text = t['texts'][f['order']]
-                    iid = 'B:%s|%s|%s|%s' % (hashlib.sha1(text.encode()).hexdigest()[:12],
-                                             f['mode'], f['query'], f['all_scopes'])
-                    case = {'task': {'texts': [text], 'idents': t['idents'], 'first': 0,
-                                     'only': [0] + only[1:]}}
-                else:
-                    iid = '%s|%s|%s|%s|%s' % (tid, f['order'], f['mode'], f['query'], f['all_scopes'])
-                    case = {'task': dict(t, only=only)}
-                ctx.violation(f['site'], iid, f['detail'], case)
-        if pres.skipped:
+        r = pres.results.get(i)
+        if r is None:
+            if i in skipped:
+                cnt[1] += 1
+            continue
+        for k in tot:
+            tot[k] += r[k]
+        classes.update(r['classes'])
+        for k, v in r['hits'].items():
+            hits[k] = hits.get(k, 0) + v
+        fam = tid.split(':')[0]
+        hits['trees:' + fam] = hits.get('trees:' + fam, 0) + 1
+        for f in r['fails']:
+            only = [f['order'], f['query'], f['mode'], f['all_scopes']]
+            if 'texts' in t:
+                # a buffer is identified by its text, not by its position in the chunk
+                text = t['texts'][f['order']]
+                iid = 'B:%s|%s|%s|%s' % (hashlib.sha1(text.encode()).hexdigest()[:12],
+                                         f['mode'], f['query'], f['all_scopes'])
+                case = {'task': {'texts': [text], 'idents': t['idents'], 'first': 0,
+                                 'only': [0] + only[1:]}}
+            else:
+                iid = '%s|%s|%s|%s|%s' % (tid, f['order'], f['mode'], f['query'], f['all_scopes'])
+                case = {'task': dict(t, only=only)}
+            ctx.violation(f['site'], iid, f['detail'], case)
+    for name, ts in levels:
+        n, nskip = per_level.get(name, [0, 0])
+        if nskip:
             exhaustive = False
-            ctx.note('level %s: %d of %d trees not explored (time cap)'
-                     % (name, len(pres.skipped), len(tasks)))
+            ctx.note('level %s: %d of %d not explored (time cap)' % (name, nskip, n))
         else:
-            done.append('%s: %d' % (name, len(tasks)))
+            done.append('%s: %d' % (name, n))
     sample = fams[1][1][0]
     ctx.coverage.update({
         'states': tot['states'], 'transitions': tot['q'], 'evaluations': tot['q'],
